@@ -23,7 +23,7 @@ from rules.null_rules import short, occurrence_tag, _producer_in
 ASSERT_MACROS = ("ABG_ASSERT", "assert")
 # value-preserving wrappers: the result is the input value in another representation
 WRAPPERS = ("build_sptr", "unescape_xml_string", "escape_xml_string", "atoi", "atoll", "strtoull", "strtoll",
-            "strtoul", "strtol", "string", "basic_string")
+            "strtoul", "strtol", "string", "basic_string", "gelf_getshdr")
 
 
 def assertion_sites(f):
@@ -283,7 +283,9 @@ def classify_abort(f, site, accessors, producers=None):
                 d = f.decl(x)
                 if x["k"] == "DeclRefExpr" and (d or {}).get("k") not in ("Var", "ParmVar"):
                     continue
-                r = derived_from(f, x, accessors) or (producers and derived_from(f, x, producers))
+                # nullness of a nullable producer's result is not used here: `if (a = is_A(v)) .. else if
+                # (b = is_B(v)) .. else abort()` is an exhaustive dispatch over a closed class hierarchy
+                r = derived_from(f, x, accessors)
                 if r:
                     return "%s (from %s)" % (expr_str(f, x), r)
                 if x["k"] == "DeclRefExpr" and d["k"] == "ParmVar" and _is_string_type(f.unit.type(d.get("t"))) and \
